@@ -170,6 +170,16 @@ Theorem C09_supply_terms :
      end).
 Proof. exact (conj supply_mass_nonneg (conj dcoef_nonneg (conj diff_sign maxup_range))). Qed.
 
+(* the two together, over a whole crop cycle: on any run of days with a non-negative time step and a sane top soil (water content >= 0,
+   emergence threshold 0.3*(W-WMIN)+WMIN > 0) the argument of root() - phyllochron sum + emergence sum - never decreases, and with the
+   true power and exponential the potential rooting depth never decreases from day to day (root velocity >= 0) *)
+Theorem C09_rooting_depth_monotone_run : forall (veloc tb : R) (xs : list (dev_in (T:=R))) (s : dev_st (T:=R)),
+  0 <= veloc -> Forall day_sane xs ->
+  let ts (d : dev_st (T:=R)) := st_phyllo (ds_stage d) + cg (st_sum (ds_stage d)) 0 in
+  ts s <= ts (dev_run xs s) /\
+  pot_root_depth (root_qrez (root_pow_true veloc tb (ts s))) <= pot_root_depth (root_qrez (root_pow_true veloc tb (ts (dev_run xs s)))).
+Proof. exact (fun veloc tb xs s Hv H => conj (dev_run_tempsum xs s H) (dev_run_root_depth veloc tb xs s Hv H)). Qed.
+
 (* non-vacuity: a winter-wheat day (4 degC, 20 vernalisation days so far, threshold 50, 14 h photoperiod against
    DAYL 20 / DLBAS 7) has all three factors strictly inside their ranges *)
 Example C09c_nonvacuous :
@@ -191,3 +201,4 @@ Print Assumptions C09_supply_terms.
 Print Assumptions C09_pool_inputs.
 Print Assumptions C09_crop_coefficient.
 Print Assumptions C09_crop_coefficient_feeds_C08.
+Print Assumptions C09_rooting_depth_monotone_run.
